@@ -53,7 +53,11 @@ func c13Config(r *scen.Rng, sc *scen.Scenario, nCalls int, tasks int) (tk int) {
 	for _, class := range []string{"writer", "errwriter"} {
 		op.Opts = append(op.Opts, scen.Op{Kind: class, W: nextW, WK: scen.Pick(r, []string{"plain", "logwriter", "levelsettable"})})
 		nextW++
-		for k := r.Intn(3); k > 0; k-- {
+		extra := r.Intn(3)
+		if r.Chance(1, 12) {
+			extra = r.Range(8, 14) // a long list: many members can fail on one record
+		}
+		for k := extra; k > 0; k-- {
 			op.Opts = append(op.Opts, scen.Op{Kind: "add_" + class, W: nextW, WK: "plain"})
 			nextW++
 		}
@@ -133,6 +137,16 @@ func (p *C13) Gen(seed uint64, i int, tier string) *scen.Scenario {
 				f.Attempt = r.Intn(tk + 2)
 			}
 			sc.Faults = append(sc.Faults, f)
+		}
+		if r.Chance(1, 5) {
+			// most members of the destination lists fail permanently for a while
+			for wid := 1; wid <= 30; wid++ {
+				if r.Chance(4, 5) {
+					for a := 0; a < 6; a++ {
+						sc.Faults = append(sc.Faults, scen.Fault{W: wid, Attempt: a, Kind: "err"})
+					}
+				}
+			}
 		}
 		if r.Chance(1, 4) {
 			// a burst: the record's write and the diagnostic's own write fail back to back
